@@ -85,10 +85,7 @@ Fixpoint wf_trace (g : cfg) (s : state) (evs : list ev) : bool :=
   | [] => true
   | e :: evs' =>
       (match e with
-       | Flush objs ents _ =>
-           ents_wf g (d_live (s_db s)) ents &&
-           (* every flushed entity is visible to is_session_modified as an object of the session *)
-           forallb (fun en => existsb (fun o => (o_cls o =? e_cls en)%nat) objs) ents
+       | Flush objs ents _ => ents_wf g (d_live (s_db s)) ents
        | _ => true
        end) && wf_trace g (step g s e) evs'
   end.
